@@ -302,7 +302,9 @@ func build(format string, o Opts, r io.Reader) (iterator, error) {
 
 // ---------------------------------------------------------------- canonical statements, C06 oracle
 
-type bnNumbering struct{ m map[rdf.BlankNodeIdentifier]int }
+type bnNumbering struct {
+	m map[rdf.BlankNodeIdentifier]int
+}
 
 func (b *bnNumbering) label(n rdf.BlankNode) string {
 	if n.Identifier == nil {
